@@ -257,6 +257,30 @@ func runC15(res *lib.Result, tier string, seed int64, args []string) error {
 	for wi := 0; wi < nW; wi++ {
 		r := root.Fork(uint64(wi))
 		w := genC15World(r)
+		if wi%10 == 0 {
+			// a fixed shape in every tier: a cycle K0 -> K1 -> K0 whose back-edge is followed by a further parent (K1's
+			// parents are K0, then K2), a diamond under it, and variables of every class
+			w = &c15World{}
+			mk := func(name string, parents []string, file string, fields ...string) {
+				w.classes = append(w.classes, c15Class{name: name, parents: parents, decls: []c15Decl{{file: file, fields: fields}}})
+			}
+			// (the cycle is declared in the file the lookups start in — the same-file branch of the class walk — or, every
+			// other time, in two other files — its workspace branch)
+			f0, f1, f2 := "main.lua", "main.lua", "a.lua"
+			if wi%20 == 10 {
+				f0, f1, f2 = "a.lua", "b.lua", "main.lua"
+			}
+			mk("K0", []string{"K1"}, f0, "k0d0f0")
+			mk("K1", []string{"K0", "K2"}, f1, "k1d0f0", "k1d0f1")
+			mk("K2", []string{"K3", "K4"}, f2, "k2d0f0")
+			mk("K3", []string{"K5"}, "a.lua", "k3d0f0")
+			mk("K4", []string{"K5", "K4"}, "b.lua", "k4d0f0")
+			mk("K5", nil, "a.lua", "k5d0f0")
+			w.selfPar = true
+			for i, c := range w.classes {
+				w.vars = append(w.vars, c15Var{name: fmt.Sprintf("v%d", i), typ: c.name, roots: []string{c.name}, query: fmt.Sprintf("v%d", i)})
+			}
+		}
 		files, fieldAt := w.render()
 		dir := lib.ScratchDir(fmt.Sprintf("c15w%d", wi))
 		if err := lib.WriteWorkspace(dir, files); err != nil {
